@@ -110,10 +110,14 @@ def orbit(ctx, x, first):
         nxt = guarded(ctx, cur, False)
 
 
-def grows_steadily(chain):
-    """the last 32 links all lengthen the URL by the same positive amount"""
-    d = [len(b) - len(a) for a, b in zip(chain[-33:], chain[-32:])]
-    return len(d) == 32 and d[0] > 0 and all(k == d[0] for k in d)
+def growth_period(chain):
+    """(p, d) when, over the last 32 links, every p-th successor is longer by the same d > 0 (p in 1..4), else None"""
+    lens = [len(c) for c in chain[-(33 + 4):]]
+    for p in (1, 2, 3, 4):
+        d = [lens[i + p] - lens[i] for i in range(len(lens) - p)]
+        if len(d) >= 32 and d[0] > 0 and all(k == d[0] for k in d):
+            return p, d[0]
+    return None
 
 
 def step_kind(y, z):
@@ -192,11 +196,13 @@ def check_url(ctx, x):
             elif outcome == "cycle":
                 detail = "one-step orbit enters a cycle: " + " -> ".join(short(c, 60) for c in chain[-4:])
             elif outcome == "open":
-                if grows_steadily(chain):
+                gp = growth_period(chain)
+                if gp is not None:
                     family = "divergent"
-                    detail = ("one-step orbit has no fixed point: every application lengthens the URL by %d characters "
+                    detail = ("one-step orbit has no fixed point: every %s lengthens the URL by %d characters "
                               "(followed for %d applications), e.g. %r -> %r -> %r"
-                              % (len(chain[-1]) - len(chain[-2]), ORBIT_STEPS, short(chain[0], 50), short(chain[1], 50), short(chain[2], 50)))
+                              % ("application" if gp[0] == 1 else "%d applications" % gp[0], gp[1], ORBIT_STEPS,
+                                 short(chain[0], 50), short(chain[1], 50), short(chain[2], 50)))
                 else:
                     # long chain without an obvious pattern: look again with a much higher limit before judging
                     r_hi = guarded(ctx, x, True, limit=RETRY_LIMIT)
